@@ -84,6 +84,15 @@ type UnifyIn struct {
 	Unsafe bool     `json:"unsafe"`
 }
 
+// WrapIn is the input of out/decoder-wrappers.
+type WrapIn struct {
+	Target  spec.T   `json:"target"`
+	Desc    spec.T   `json:"desc"`
+	JSON    string   `json:"json"`
+	Msgpack []byte   `json:"msgpack"`
+	Labels  []string `json:"labels,omitempty"`
+}
+
 // TransformIn is the input of out/transform.
 type TransformIn struct {
 	V       spec.V `json:"v"`
@@ -357,6 +366,46 @@ func init() {
 		},
 	})
 
+	facet.Register(facet.F[convgen.Case]{
+		Prop: "C06", Name: "out/convert-weakened", Quick: 60000, Thorough: 600000, Shards: 4,
+		Rule: "as out/convert, but the value is a wholly-known value of which any subset of sub-values (at any depth) has been replaced by unknowns that admit them (unrefined, not-null, bounds, prefixes, length bounds, DynamicVal): sets of unknown length, unknown members of collections and structures, unknown roots; targets biased to kind changes and added (nested) optional attributes; every successful result of Convert is checked; " + ntRule,
+		Gen: func(t *rapid.T) convgen.Case {
+			o := convgen.Opts{Type: gen.TypeOpts{Depth: 2, Dynamic: true}, Val: gen.ValOpts{Null: true, Simple: rapid.IntRange(0, 3).Draw(t, "fullvalues") != 0}}
+			cs := convgen.Pair(o).Draw(t, "case")
+			a, kinds := gen.Weaken(t, cs.V, !cs.Target.HasDynamic())
+			cs.V = a
+			cs.Edits = append(cs.Edits, kinds...)
+			return cs
+		},
+		Check: func(c *facet.Ctx, in convgen.Case) error {
+			v, err := spec.Build(in.V)
+			if err != nil {
+				c.Skip()
+				return nil
+			}
+			ty := in.Target.Cty()
+			var got cty.Value
+			var cerr error
+			func() {
+				defer func() {
+					if r := recover(); r != nil {
+						cerr = fmt.Errorf("panic: %v", r) // panics are C08's business
+					}
+				}()
+				got, cerr = convert.Convert(v, ty)
+			}()
+			if cerr != nil {
+				c.Label("no-conversion")
+				c.Skip()
+				return nil
+			}
+			if !v.IsWhollyKnown() {
+				c.Label("weakened")
+			}
+			return wfAll(c, fmt.Sprintf("convert.Convert(%#v, %s)", v, in.Target), got)
+		},
+	})
+
 	facet.Register(facet.F[UnifyIn]{
 		Prop: "C06", Name: "out/unify", Quick: 40000, Thorough: 400000, Shards: 4,
 		Rule: "1..4 related types (a base type and one-position mutants: tuple<->list, object<->map, element type changes, dynamic inserted), unified with Unify / UnifyUnsafe; each returned conversion is applied to a generated value of its input type and the result checked; " + ntRule,
@@ -573,6 +622,44 @@ func init() {
 				return nil
 			}
 			return wfAll(c, "msgpack.Unmarshal", got)
+		},
+	})
+
+	facet.Register(facet.F[WrapIn]{
+		Prop: "C06", Name: "out/decoder-wrappers", Quick: 50000, Thorough: 400000, Shards: 4,
+		Rule: "hand-written dynamic-value wrappers (type description + value; codecgen.DrawWrapperDoc) decoded by json.Unmarshal and msgpack.Unmarshal against a target with the placeholder at that position: the description is dense in optional-attribute lists at any depth, the value part is per node null / unknown (MessagePack) / empty / minimal, so the decoder types its result from the description; every value a decoder returns without an error is checked (above all: no optional-attribute annotation anywhere in its type); non-trivial = a decoder returned a value; distinct = hash of the document",
+		Gen: func(t *rapid.T) WrapIn {
+			d := codecgen.DrawWrapperDoc(t, true)
+			return WrapIn{Target: d.Target, Desc: d.Desc, JSON: string(d.JSON), Msgpack: d.Msgpack, Labels: d.Labels}
+		},
+		Check: func(c *facet.Ctx, in WrapIn) error {
+			for _, l := range in.Labels {
+				c.Label(l)
+			}
+			ty := in.Target.Cty()
+			any := false
+			var got cty.Value
+			var err error
+			if !guardedPanic(func() { got, err = ctyjson.Unmarshal([]byte(in.JSON), ty) }) && err == nil {
+				any = true
+				c.Label("json-decoded")
+				if e := wfAll(c, "json.Unmarshal of "+in.JSON, got); e != nil {
+					return e
+				}
+			}
+			if !guardedPanic(func() { got, err = msgpack.Unmarshal(in.Msgpack, ty) }) && err == nil {
+				any = true
+				c.Label("msgpack-decoded")
+				if e := wfAll(c, fmt.Sprintf("msgpack.Unmarshal of %x (wrapper for %s)", in.Msgpack, in.Desc), got); e != nil {
+					return e
+				}
+			}
+			if !any {
+				c.Skip()
+				return nil
+			}
+			c.NonTrivial()
+			return nil
 		},
 	})
 
